@@ -60,6 +60,14 @@ func (v *FnVC) calleeName(c *ssa.CallCommon) (name string, fn *ssa.Function) {
 			return v.funVarContractName(x.Name()), nil
 		}
 	}
+	// call through a package-level variable of function type: contract "pkg.name$var"
+	if ld, ok := c.Value.(*ssa.UnOp); ok && ld.Op == token.MUL {
+		if g, ok := ld.X.(*ssa.Global); ok && g.Pkg != nil {
+			if _, isF := deref(g.Type()).Underlying().(*types.Signature); isF {
+				return g.Pkg.Pkg.Path() + "." + g.Name() + "$var", nil
+			}
+		}
+	}
 	// call through a function-typed struct field: contract "(pkg.T).field$field" (assumed for every value stored there)
 	if ld, ok := c.Value.(*ssa.UnOp); ok && ld.Op == token.MUL {
 		if fa, ok := ld.X.(*ssa.FieldAddr); ok {
